@@ -91,6 +91,24 @@ class Setup:
     def obj(self, cls, **fields):
         return Obj(cls, fields)
 
+    def new(self, cls, *args, **kwargs):
+        """An instance of a repository class AS ITS REAL CONSTRUCTOR BUILDS IT: `cls.__init__` is interpreted from the repository
+        (re-read on every run) on the given symbolic arguments, so the object carries every field the constructor sets -- also
+        one added by a change -- with the value the constructor computes.  Branches inside the constructor split the proof
+        paths like any branch of the carrier; arguments on which the constructor raises (an exception, or a failed `safety`
+        condition such as an index out of bounds) describe no object: such a path is dropped / the condition is assumed.
+        Obligations of any other kind (frame writes ...) stay obligations of the carrier being verified.
+        Everything the constructor allocates exists before the carrier is entered (it is part of `entry_uids`)."""
+        eng = self.eng
+        n0 = len(eng.obligs)
+        try:
+            o = eng.instantiate(cls, list(args), dict(kwargs))
+        except ProgExc:
+            raise Infeasible()
+        finally:
+            eng.obligs[n0:] = [ob for ob in eng.obligs[n0:] if ob.kind != "safety"]
+        return o
+
     def opaque(self, proto, name="o"):
         return Opaque(z3.Const(fresh_name(name), z3.IntSort()), proto)
 
